@@ -154,6 +154,30 @@ impl<'tcx> Cx<'tcx> {
             }
             return ("null".into(), named);
         }
+        // `&[u8; N]` (byte string literals and the compressed templates of format_args!)
+        if let ty::Ref(_, inner, _) = ty.kind() {
+            if let ty::Array(et, n) = inner.kind() {
+                if *et == tcx.types.u8 {
+                    if let (ConstValue::Scalar(rustc_middle::mir::interpret::Scalar::Ptr(ptr, _)), Some(n)) =
+                        (val, n.try_to_target_usize(tcx))
+                    {
+                        let (prov, off) = ptr.prov_and_relative_offset();
+                        if let rustc_middle::mir::interpret::GlobalAlloc::Memory(a) =
+                            tcx.global_alloc(prov.alloc_id())
+                        {
+                            let a = a.inner();
+                            let lo = off.bytes() as usize;
+                            let hi = lo + n as usize;
+                            if hi <= a.len() {
+                                let b = a.inspect_with_uninit_and_ptr_outside_interpreter(lo..hi);
+                                return (js(&String::from_utf8_lossy(b)), named);
+                            }
+                        }
+                    }
+                    return ("null".into(), named);
+                }
+            }
+        }
         if ty.is_integral() || ty.is_bool() || ty.is_char() {
             if let Some(si) = val.try_to_scalar_int() {
                 let size = si.size();
